@@ -51,6 +51,8 @@ pub fn run(property: &str, tier: &str) -> i32 {
             let (points, queries, repeats) = expiry_sweep_with(&rep, 2);
             // (c)(d) go parameters and go sequences on the real binary
             let (sessions, cmds) = crate::e4_session::c03_sessions(&rep, "C03");
+            let forced = crate::e4_session::forced_move_sessions(&rep);
+            let (sessions, cmds) = (sessions + forced, cmds + forced * 6);
             // (e) interleavings
             let r3 = crate::e3_driver::run(&rep, false);
             let conf = crate::e4_session::free_running_conformance(&rep, &r3.outcomes_by_root);
@@ -86,7 +88,7 @@ pub fn run(property: &str, tier: &str) -> i32 {
         "C08" => {
             let r3 = crate::e3_driver::run(&rep, false);
             let (sessions, cmds) = crate::e4_session::c03_sessions(&rep, "C03");
-            let smoke = crate::e4_session::wallclock_smoke(&rep) + crate::e4_session::realclock_sessions(&rep);
+            let smoke = crate::e4_session::wallclock_smoke(&rep) + crate::e4_session::realclock_sessions(&rep) + crate::e4_session::startup_option_sessions(&rep) + crate::e4_session::forced_move_sessions(&rep) + crate::e5_pure::deadline_predicate(&rep);
             rep.assume("wall-clock magnitudes are a smoke measurement with a 3 s margin; the exhaustive verdict is the virtual-time one (every schedule terminates with an answer, the search thread unwinds within a bounded number of consultations after expiry)");
             let rule = "all interleavings (loom, preemption bound 2/3, unbounded for small expiry indices) x every expiry index on non-terminal, checkmated and stalemated roots, one and two go commands: exactly one bestmove per go, null move on a finished game, no livelock; sessions of the real binary continuing after go (isready, new position, go); wall-clock smoke run on the unhooked binary";
             rep.finish(r3.models + sessions, r3.executions + cmds, smoke, true, rule)
@@ -144,6 +146,7 @@ fn expiry_sweep_with(rep: &Report, fewer: u8) -> (u64, u64, u64) {
     let picked: Vec<crate::e2_clockpoints::Root> = roots.iter().enumerate().filter(|(i, _)| !quick || [0usize, 1, 4, 14, 22].contains(i)).map(|(_, r)| r.clone()).collect();
     let runs = crate::e2_clockpoints::allowance_independence(rep, &picked, &depth_of);
     rep.add("unexpired_runs_with_other_numeric_allowances", runs);
+    crate::e2_clockpoints::fortress_full_searches(rep, &stats.info_lines);
     rep.add("expiry_points", stats.points.load(Relaxed));
     rep.add("clock_consultations_executed", stats.node_queries.load(Relaxed));
     rep.add("runs_repeated_for_determinism", stats.repeats.load(Relaxed));
